@@ -60,6 +60,8 @@ Acceptable(w, def) == InRange(def) /\ InRange(Normalise(w, [def EXCEPT !.adf = 0
 
 \* the relations of C16 on stored parameters p for width w
 Normalised(w, p) ==
+    /\ p.sdf >= 10 /\ p.spd >= 10 /\ p.eps >= 10 /\ p.sumdf >= 10      \* (first: the relations below divide by them)
+    /\ p.spd \div p.sdf >= 1
     /\ p.sdf % (256 \div GCD(w, 256)) = 0     \* a level-1 entry covers a multiple of 256 bits: (sdf * w) % 256 = 0
     /\ p.spd % p.sdf = 0                      \* a block holds whole entries
     /\ p.eps % (p.spd \div p.sdf) = 0         \* a summary chunk holds whole blocks' entries
